@@ -1030,6 +1030,10 @@ def run(p: Program, rep: Report, tier: str) -> None:
                     okc, why = False, f"the remaining-count operand of the clamp has a fall-back value ({ast.unparse(rem[0])[:50]}): when nothing remains a full chunk is requested"
             if okc:
                 rep.ok("R2.6", "asgi fallback sender: with a byte count every read asks for min(chunk size, remaining count)")
+            elif not why:
+                # the requested length is not assigned inside the sender (it is the loop variable of a generator that plans the reads,
+                # a parameter ...): where it comes from is not read by this rule
+                rep.undecide("R2.6", f"asgi fallback sender: the length asked of os.read ({ast.unparse(L)[:40]}) is not computed by an assignment of the sender: the clamp is not recognised")
             else:
                 rep.violation("R2.6", construct(fs, text="unclamped read"), where(fs, c), f"asgi: {why}: bytes beyond the requested range can be read and sent (Content-Length no longer matches the body)")
             # stop condition
